@@ -29,7 +29,7 @@ const maxThreads = 30
 
 // StuckAfter is the watchdog of one execution: a tree that blocks in a way the scheduler does not own (channel
 // operations, spin loops on plain memory) makes no progress; the exploration is then abandoned as incomplete.
-var StuckAfter = 60 * time.Second
+var StuckAfter = 20 * time.Second
 
 type deadlockSentinel struct{}
 
